@@ -424,4 +424,4 @@ def describe(case):
 def run_shard(ctx) -> None:
     use_scratch(ctx.tmp)
     strat, salt = strategy(ctx)
-    ctx.run_hypothesis(strat, check_case, ctx.scale(1500, 30000), describe=describe, salt=salt)
+    ctx.run_hypothesis(strat, check_case, ctx.scale(2500, 30000), describe=describe, salt=salt)
